@@ -6,7 +6,7 @@ objects (byte offset -> value).  Control: both sides of an undecided branch are 
 immediate post-dominator and merged with ite.  Obligations (bounds, division, null, unwinding) are
 recorded with their path condition and discharged by the caller.
 """
-import re, sys, struct
+import re, sys, struct, fnmatch
 import z3
 from .irparse import Module, take_type, split_top
 
@@ -317,6 +317,15 @@ class Engine:
                 for m in self.mods:
                     if m.has(alt) and re.search(r'@%s = [^\n]*alias[^\n]*@%s\b' % (re.escape(name), re.escape(alt)), m.text):
                         return m, m.func(alt)
+        loader = getattr(self, 'lazy_loader', None)
+        if loader is not None and name not in getattr(self, '_lazy_tried', set()):
+            self.__dict__.setdefault('_lazy_tried', set()).add(name)
+            m = loader(name)
+            if m is not None:
+                if m not in self.mods:
+                    self.mods.append(m)
+                if m.has(name):
+                    return m, m.func(name)
         return None, None
 
     def find_global(self, name):
@@ -1349,7 +1358,10 @@ class Engine:
         stub = self.stubs.get(name)
         if stub is None:
             for pat, fn in self.stubs.items():
-                if pat.endswith('*') and name.startswith(pat[:-1]):
+                if pat.endswith('*') and '*' not in pat[:-1]:
+                    if name.startswith(pat[:-1]):
+                        stub = fn; break
+                elif '*' in pat and fnmatch.fnmatchcase(name, pat):
                     stub = fn; break
         if stub is not None:
             r = stub(self, fr, ins, st, name, argv)
